@@ -21,6 +21,19 @@ def UserOnlyNoDoc (K : Consts) (ops : List TsOp) : Prop :=
 def NoShadow (ts : TypeSystem) : Prop :=
   ∀ t ∈ ts.types, ∀ f ∈ t.own, ∀ g ∈ t.inh, g.name ≠ f.name
 
+/-- the names the API was given carry no surrounding whitespace: every user type name, and the name of every own
+    feature of a user type as `to_xml` writes it (`renderFeat`: without the underscore appended to `self`/`type`).
+    Supertype, range and element type names need no mention: the API resolves them, so they are names of registered
+    types.  (`create_type(" x.A ")` is accepted and `to_xml` writes `<name> x.A </name>`, but the reader strips every text
+    it reads: the reloaded type system declares `x.A`, not `" x.A "` — evaluated in `Spec/TsXmlRoundTripCheck.lean`,
+    `counterPadType`, `counterPadFeat`.) -/
+def StrippedNames (K : Consts) (ts : TypeSystem) : Prop :=
+  ∀ t ∈ ts.types, K.predefined.contains t.name = false → t.name ≠ DOCUMENT_ANNOTATION →
+    strip t.name = t.name ∧ ∀ f ∈ t.own, strip (renderFeat f).name = (renderFeat f).name
+
+instance (K : Consts) (ts : TypeSystem) : Decidable (StrippedNames K ts) := by
+  unfold StrippedNames; infer_instance
+
 /-- what the reader does to a description (`_get_elem_as_str` strips) followed by what XML can express
     (an empty text is no text) -/
 def trimD (d : Option String) : Option String := noEmpty (normDescr d)
